@@ -20,6 +20,8 @@ func init() {
 			"AF-SET nested by/without; PV-ROLE reported value = strconv.FormatFloat(v, 'f', -1, 64) on every path",
 			"PV-RESET literalBinOpIterator.Next: accepted results reach r.Samples and the list is cut/set to them",
 			"number tokens are evaluated by strconv.ParseFloat; fetchContainers lists the containers anew for every selector",
+			"ERR-CHAIN/OWN-WRAP of the operand iterators; precedence classes; the scalar operand carries each sample's own label set",
+			"PV-ONCE step transformers read one inner step per outer step (the two sides stay aligned)",
 		},
 		NotDecided: []string{"floating-point results", "per-step alignment of the two sides beyond 'built with the same parameters'"},
 		Rules: func(r *Run) {
@@ -40,6 +42,12 @@ func init() {
 			ruleUnitEvaluators(r)  // the scalar written in the query is the scalar applied
 			ruleFetchContainers(r) // both operands are computed from the containers their own selectors select
 			ruleOpenLogContext(r)
+			ruleErrChainC14(r) // a failing operand makes the operation fail instead of computing from a truncated side
+			ruleOwnWrapScoped(r, []string{metricPkg, enginePkg}, 2)
+			rulePrecedenceTable(r) // which two sides the operator gets
+			ruleLiteralOperandPerSample(r)
+			ruleBuildDescendsOneLevel(r)
+			ruleOneInnerStepPerStep(r)
 		},
 	})
 }
